@@ -128,8 +128,9 @@ Print Assumptions C08_delete_put_lines_exec.
    exactly lbuf_region, the rows r1..r2 become the single line before ++ after, the cursor row is r1;
    when the cursor can stay at the start of the region (off_ok: not clamped by the end of the new line)
    and the region is not empty, P of that register restores the buffer.  The hypothesis
-   g_o2 <= slen l2 - 1 excludes only a target past the terminator (d^ on a blank-only line, where
-   lbuf_indents counts the newline as a blank) *)
+   g_o2 <= slen l2 - 1 (the region ends at or before the terminator of its last line) holds for every motion
+   target of the repaired code; it is kept as a hypothesis because no theorem bounds the targets of all
+   motions by lbuf_eol (before repo 27e5b4d it failed for d^ on a line without a non-blank) *)
 Theorem C08_delete_put_chars_exec : forall rows e y a1 a2 t k r2 o2 cl cc pc e1 l1 l2, plain_reg y ->
   let b := s_buf e in let s := s_vs e in
   let o1 := ren_noeol (getl b (v_row s)) (v_off s) in
@@ -176,22 +177,17 @@ Print Assumptions C08_utf8_file.
 Theorem C08_utf8_register : forall cs, line_valid cs -> valid (flat cs).
 Proof. exact flat_valid. Qed.
 Print Assumptions C08_utf8_register.
-(* ---------- a refuted clause: the target of ^ can lie beyond the line (KF-CARET-PAST-EOL) ---------- *)
-(* the faithful model does NOT satisfy "a character-wise operator with an in-line motion affects a span of the
-   cursor line": on the lines 'a', '' (empty), 'b' the keys :2 d^ remove the empty LINE and put the newline into the
-   unnamed register and register 1 (lbuf_indents counts the terminator as a blank, so the target of ^ is the position
-   after it).  Replayed on the real editor: corpus/C08-kf-caret.json; repair: fixes/C08-caret-past-terminator.patch.
-   This is why C08_delete_put_chars_exec carries the hypothesis g_o2 <= slen l2 - 1 *)
-Theorem C08_caret_target_refuted : exists b e,
-  exec_prog b 23 [CGoto 2; COp 0 0 Od 0 (TMot Kcaret) []] = Some e /\
-  blen (s_buf e) < blen b /\ reg_get (s_regs e) 49 = Some ([10%N], false).
-Proof.
-  exists (buf_of_bytes [97; 10; 10; 98; 10]%N).
-  destruct (exec_prog (buf_of_bytes [97; 10; 10; 98; 10]%N) 23 [CGoto 2; COp 0 0 Od 0 (TMot Kcaret) []]) as [e|] eqn:E.
-  - exists e. split; [reflexivity|]. revert E. vm_compute. intro E. inversion E; subst. vm_compute. split; reflexivity.
-  - exfalso. revert E. vm_compute. discriminate.
-Qed.
-Print Assumptions C08_caret_target_refuted.
+(* ---------- the repaired ^ target (finding of this check, repaired in /repo by 27e5b4d) ---------- *)
+(* before the repair the target of ^ on a line without a non-blank was the position after the terminator, and
+   d^ on an empty line deleted the LINE (corpus/C08-kf-caret.json).  The mirror of the repaired code: on the lines
+   'a', '' (empty), 'b' the keys :2 d^ leave the three lines and put nothing but the empty text into the registers *)
+Example C08_caret_target_fixed :
+  let b := buf_of_bytes [97; 10; 10; 98; 10]%N in
+  match exec_prog b 23 [CGoto 2; COp 0 0 Od 0 (TMot Kcaret) []] with
+  | Some e => s_buf e = b /\ reg_get (s_regs e) 49 = None /\ reg_get (s_regs e) 34 = Some ([], false)
+  | None => False
+  end.
+Proof. vm_compute. repeat split; reflexivity. Qed.
 
 (* ---------- the state invariant of the modelled commands ---------- *)
 (* every program of modelled commands keeps: valid UTF-8 (C08_utf8), every line well formed (exactly one newline
